@@ -355,12 +355,109 @@ def patcodec_leg(ck, tier, rng, drv, tmpd, env, stats, rp):
     if r.returncode != 0:
         ck.violation({"engine": "patcodecs", "broken": "sanitizer report / crash while loading a file with generated pattern data", "stderr": r.stderr[-2000:]}, key="c19-pat-crash")
 
+# ---------------------------------------------------------------------------------------------------------------------------
+# (e) IT 2.14 / 2.15 compressed samples: Model/ItSex.v (transcribed from itsex.c) against itsex_decompress8 / 16 called directly
+#     (writer output, mutants, random streams), and whole IT files whose sample was packed by the extracted, proved writer.
+
+def itsex_leg(ck, tier, rng, drv, tmpd, env, stats, rp):
+    model = V.ocaml_build("itsex")
+    idrv = V.build_driver("itsex_drv", ["itsex_drv.c"])
+    st = stats.setdefault("itsex", {"writer_streams": 0, "mutants": 0, "random": 0, "model_errors": 0, "samples_compared": 0, "files": 0})
+    cases = []      # (wide, it215, n, stream, expected samples or None, kind)
+    if rp:
+        c = rp["case"]; cases = [(c["wide"], c["it215"], c["n"], bytes.fromhex(c["stream"]), None, c["kind"])]
+    else:
+        enc = []
+        lens = (1, 2, 3, 9, 100, 1000, 16384, 16385, 32768, 32769) if tier == "quick" else (1, 2, 3, 7, 8, 9, 100, 1000, 4097, 16383, 16384, 16385, 20000, 32767, 32768, 32769, 40000, 70000)
+        for wide in (False, True):
+            for v in (False, True):
+                for n in lens:
+                    lim = 65536 if wide else 256; k = rng.random()
+                    if k < 0.35: s = [rng.randrange(lim) for _ in range(n)]
+                    elif k < 0.7:
+                        x = rng.randrange(lim); s = []
+                        for _ in range(n): x = (x + rng.randrange(-5, 6)) % lim; s.append(x)
+                    else: s = [(i * i * 7) % lim for i in range(n)]
+                    enc.append((wide, v, s))
+        out = V.run([model], inp="".join("E %d %d %s\n" % (w, v, ",".join(map(str, s))) for w, v, s in enc), timeout=3000).stdout.split("\n")
+        for (w, v, s), l in zip(enc, out):
+            f = l.split()
+            if len(f) != 3 or f[0] != "Z" or f[1] != "1": raise V.BuildError("itsex writer: unexpected output %r" % l[:80])
+            z = bytes.fromhex(f[2]); cases.append((w, v, len(s), z, s, "writer")); st["writer_streams"] += 1
+            for _ in range(2 if len(s) <= 1000 else 1):
+                b2 = bytearray(z); k = rng.random()
+                if k < 0.5: b2[rng.randrange(len(b2))] ^= 1 << rng.randrange(8)
+                elif k < 0.8: del b2[rng.randrange(len(b2)):]
+                else: b2[rng.randrange(2, len(b2)) if len(b2) > 2 else 0] = rng.randrange(256)
+                cases.append((w, v, len(s), bytes(b2), None, "mutant")); st["mutants"] += 1
+        for k in range(300 if tier == "quick" else 5000):
+            w = rng.random() < 0.5; v = rng.random() < 0.5; n = rng.choice((1, 5, 50, 400)); ln = rng.choice((0, 1, 2, 3, 5, 20, 100))
+            body = bytes(rng.randrange(256) if rng.random() < 0.6 else rng.choice((0, 0xff, 0x80, 1)) for _ in range(ln))
+            decl = rng.choice((ln, ln, ln, ln + 1, max(0, ln - 1), 0, 65535))
+            cases.append((w, v, n, bytes([decl & 255, decl >> 8]) + body + bytes(rng.randrange(256) for _ in range(rng.choice((0, 0, 4, 30)))), None, "random")); st["random"] += 1
+    inp = "".join("%d %d %d %s\n" % (w, v, n, z.hex() or "-") for w, v, n, z, _, _ in cases)
+    mo = V.run([model], inp="".join("D " + l + "\n" for l in inp.strip().split("\n")), timeout=3000).stdout.split("\n")
+    r = V.run([idrv], inp=inp, env=env, timeout=3000)
+    co = r.stdout.split("\n")
+    for k, (w, v, n, z, want, kind) in enumerate(cases):
+        if k >= len(co) or not co[k].startswith("R "): break
+        ck.count(); bad = None
+        if want is not None:
+            exp = "R 1 %d %s" % (len(z), ",".join(map(str, want)))
+            if mo[k] != exp: raise V.BuildError("extracted decompress(compress l) differs from l (%s, %d samples): theorem decompress_compress would be false" % ("16-bit" if w else "8-bit", n))
+        if mo[k].startswith("R 0"): st["model_errors"] += 1
+        st["samples_compared"] += n
+        if mo[k] != co[k]:
+            a = mo[k].split(); b = co[k].split()
+            if a[1] != b[1]: bad = "itsex_decompress%d returns %s, the model %s" % (16 if w else 8, "0" if b[1] == "1" else "-1", "success" if a[1] == "1" else "a read error")
+            elif a[2] != b[2]: bad = "the stream is left at byte %s, the model at %s" % (b[2], a[2])
+            else:
+                x = a[3].split(","); y = b[3].split(","); i = next((i for i in range(min(len(x), len(y))) if x[i] != y[i]), -1)
+                bad = "sample %d is %s, the model unpacks %s" % (i, y[i] if i >= 0 else "?", x[i] if i >= 0 else "?")
+        if bad:
+            ck.violation({"engine": "itsex", "case": {"wide": w, "it215": v, "n": n, "stream": z.hex(), "kind": kind}, "what": bad,
+                          "broken": "correspondence: Model/ItSex.v vs src/loaders/itsex.c" + ("; the stream comes from the proved writer, so the written PCM is not reproduced (C19 violated on this input)" if want is not None else "")},
+                         key="c19:itsex:%s:%s" % (kind, bad.split(",")[0][:30]))
+        else:
+            ck.nontrivial(("itsex", z))
+    if r.returncode != 0:
+        ck.violation({"engine": "itsex", "broken": "sanitizer report / crash in itsex_decompress", "stderr": r.stderr[-2000:]}, key="c19-itsex-crash")
+    # whole files: the writer's streams as the sample of an IT module
+    if not rp:
+        files = []
+        for k, (w, v, n, z, want, kind) in enumerate(cases):
+            if kind != "writer" or n < 3: continue
+            song = dict(chn=4, orders=[0], name="gen", patterns=[[[None] * 4 for _ in range(4)]], it_comp_sample=dict(frames=n, wide=w, it215=v, stream=z))
+            pth = os.path.join(tmpd, "z%04d.it" % k); open(pth, "wb").write(modgen.WRITERS["it"](song)); files.append((pth, w, v, n, want))
+        r = V.run([drv], inp="\n".join(f[0] for f in files) + "\n", env=env, timeout=3000)
+        blocks = []; cur = []
+        for l in r.stdout.split("\n"):
+            cur.append(l)
+            if l == "ENDLOAD" or l.startswith("LOADFAIL"): blocks.append("\n".join(cur)); cur = []
+        import struct
+        for (pth, w, v, n, want), blk in zip(files, blocks):
+            ck.count(); st["files"] += 1
+            d = parse_load(blk); bad = None
+            pcm = struct.pack("<%dH" % n, *want) if w else bytes(want)
+            if "fail" in d: bad = "load failed (%d)" % d["fail"]
+            else:
+                sm = d["smp"].get(0)
+                exp = pcm if n <= 4096 else "md5:" + hashlib.md5(pcm).hexdigest()
+                if sm is None or sm[0] != n: bad = "sample length %s, written %d" % (sm[0] if sm else None, n)
+                elif bool(sm[3] & 1) != w: bad = "sample flags %d (16-bit: %s)" % (sm[3], w)
+                elif sm[5] != exp: bad = "the sample's PCM differs from what was packed (%d %s frames, IT %s)" % (n, "16-bit" if w else "8-bit", "2.15" if v else "2.14")
+            if bad:
+                ck.violation({"engine": "itsex-file", "wide": w, "it215": v, "frames": n, "what": bad, "module_hex": open(pth, "rb").read().hex() if n <= 20000 else None,
+                              "broken": "an IT module whose sample was packed by the proved writer (Model/ItSex.v compress) does not load with that PCM"}, key="c19:itsexfile:" + bad.split()[0])
+            else:
+                ck.nontrivial(("itsexfile", w, v, n))
+
 def main():
     tier = sys.argv[1] if len(sys.argv) > 1 else "quick"
     replay = sys.argv[sys.argv.index("--replay") + 1] if "--replay" in sys.argv else None
     ck = V.Check("C19", tier)
     rng = ck.rng
-    ck.proof_leg(["Extract/Extract_modcodec.vo", "Extract/Extract_patcodecs.vo"])
+    ck.proof_leg(["Extract/Extract_modcodec.vo", "Extract/Extract_patcodecs.vo", "Extract/Extract_itsex.vo"])
     drv = V.build_driver("c19_drv", ["c19_drv.c"])
     model = V.ocaml_build("modcodec")
     env = V.san_env()
@@ -478,6 +575,9 @@ def main():
         # ---- (d) packed pattern data
         if not rp or rp.get("engine") == "patcodecs":
             patcodec_leg(ck, tier, rng, drv, tmpd, env, stats, rp if rp and rp.get("engine") == "patcodecs" else None)
+        # ---- (e) IT compressed samples
+        if not rp or rp.get("engine") == "itsex":
+            itsex_leg(ck, tier, rng, drv, tmpd, env, stats, rp if rp and rp.get("engine") == "itsex" else None)
         # ---- (c) the corpus's IT files: every sample's PCM as an independent reader of the IT sample formats (incl. IT 2.14 / 2.15
         #          compression, gen/itdecomp.py) predicts it vs what libxmp loaded
         if not rp or rp.get("engine") == "itsamples":
